@@ -579,12 +579,12 @@ PROPS = {
         "theorems": [],
         "facts": ["runtime_is_per_exec", "bindings_deep_copied", "es_no_hidden_state"],
         "runs": {
-            "quick": [("isolation", ["-n", "600"]), ("walk", ["-profile", "failing", "-n", "2000"])],
+            "quick": [("isolation", ["-n", "600"]), ("walk", ["-profile", "failing", "-n", "2000"]), ("step", ["-profile", "permanent", "-n", "1500"])],
             "thorough": [("isolation", ["-n", "3000"]), ("walk", ["-profile", "failing", "-n", "5000"]), ("isolation", ["-n", "400"], {"race": True})],
         },
         "analyze": analyze_generic,
         "oracles": [],
-        "probes": ["bindingsUntouched", "laterExecutionPristine", "repeatPristine", "concurrentPristine", "propsUntouched", "propsNotShared", "untouched", "noPanic"],
+        "probes": ["bindingsUntouched", "laterExecutionPristine", "repeatPristine", "concurrentPristine", "propsUntouched", "propsNotShared", "untouched", "noPanic", "permanentInPlace"],
         "rule": ("polluter scripts (define globals, patch Object/Array/String prototypes, replace JSON/Math members and members of the "
                  "environment object, mutate their bindings in place at depth, delete bindings, mutate the step properties) followed by a "
                  "probe script that reports everything it can see, run sequentially on the same interpreter and concurrently from 16 "
